@@ -18,6 +18,9 @@ package main
 //	       kr:<coin>                 collateral return (Babbage+)
 //	       kt:<n>                    total collateral (Babbage+)
 //	       c:sreg | c:sdereg | c:sdeleg | c:pret
+//	       c:gen                     genesis key delegation (Shelley..Babbage)
+//	       c:mir:<r|p>:<amt>         move instantaneous rewards (Shelley..Babbage): r = from the reserves to a
+//	                                 reward account, p = from the treasury to the other pot
 //	       c:preg:<n|o|r>:<id>       pool registration: n = pool not registered in the state, o = registered,
 //	                                 r = registered with a pending retirement (still holds its deposit)
 //	       c:reg:<amt> | c:unreg:<amt>:<recorded> | c:srd:<amt> | c:vrd:<amt> | c:svrd:<amt>
@@ -180,6 +183,9 @@ func genC27(r *Rand, n int, tier string, emit func(string)) {
 		newPools := map[int]bool{}
 		for j := 0; j < nc; j++ {
 			kinds := []string{"sreg", "sdereg", "sdeleg", "preg", "preg", "pret"}
+			if ei < 5 {
+				kinds = append(kinds, "gen", "mir")
+			}
 			if ei >= 5 {
 				kinds = append(kinds, "reg", "unreg", "srd", "vrd", "svrd", "dreg", "dunreg", "vdeleg", "reg", "unreg")
 			}
@@ -203,8 +209,14 @@ func genC27(r *Rand, n int, tier string, emit func(string)) {
 				add(&consumed, kd)
 				add(&consumedC, kd)
 				items = append(items, "c:sdereg")
-			case "sdeleg", "pret", "vdeleg":
+			case "sdeleg", "pret", "vdeleg", "gen":
 				items = append(items, "c:"+k)
+			case "mir":
+				m := Pick(r, uint64(1+r.Intn(1000000)), r.EdgeU64()>>1, kd, pd)
+				items = append(items, fmt.Sprintf("c:mir:%s:%d", Pick(r, "r", "p"), m))
+				if r.Chance(1, 4) {
+					add(&consumedC, m) // as a rule that mistook the transfer for a refund would balance
+				}
 			case "preg":
 				id := r.Intn(3)
 				isNew := r.Chance(2, 5)
@@ -560,6 +572,24 @@ func runC27(op string) string {
 				certs = append(certs, cbArray(cbUint(2), cred, pool))
 			case "pret":
 				certs = append(certs, cbArray(cbUint(4), pool, cbUint(300)))
+			case "gen":
+				if ei >= 5 {
+					return "bad-op"
+				}
+				vrf := make([]byte, 32)
+				vrf[0] = 0x55
+				certs = append(certs, cbArray(cbUint(5), cbBytes(c27Hash28(0xe0, 1)), cbBytes(c27Hash28(0xe1, 1)), cbBytes(vrf)))
+			case "mir":
+				if ei >= 5 || len(p) != 4 {
+					return "bad-op"
+				}
+				if p[2] == "r" {
+					certs = append(certs, cbArray(cbUint(6), cbArray(cbUint(0), cbMap(cred, cbUint(num(3))))))
+				} else if p[2] == "p" {
+					certs = append(certs, cbArray(cbUint(6), cbArray(cbUint(1), cbUint(num(3)))))
+				} else {
+					return "bad-op"
+				}
 			case "preg":
 				if len(p) != 4 {
 					return "bad-op"
